@@ -40,6 +40,7 @@ def _run_one(m, prop):
                 fh.write(new)
         r = subprocess.run([os.path.join(HERE, "check"), prop, "--root", d, "--no-write", "--tier", "quick"], capture_output=True, text=True, timeout=300)
         fails = [l.strip() for l in r.stdout.splitlines() if l.strip().startswith("FAIL ")]
+        fails += ["FAIL " + l.split()[2] + " (known finding)" for l in r.stdout.splitlines() if l.startswith("KNOWN-FINDING:") and len(l.split()) > 2]
         fired = sorted({l.split()[1] for l in fails})
         return {"id": m["id"], "status": "ran", "exit": r.returncode, "fired": fired, "first": fails[0][:200] if fails else "",
                 "err": r.stdout[-300:] if r.returncode == 2 else ""}
@@ -90,6 +91,14 @@ def run_for_property(prop, rep, seed=0, jobs=16):
                 rep.ok(f"{prop}.selftest", f"break:{m['id']}", m["file"], f"seeded break detected by {sorted(expect_rules & set(r['fired'])) or r['fired']}")
             else:
                 bad.append(f"seeded break {m['id']} ({m['what']}) not detected as expected: exit {r['exit']}, fired {r['fired']} {r['err'][:120]}")
+        elif m["expect"] == "repaired":
+            # the intended repair of a recorded finding: the rule must be silent (no FAIL of that rule, exit 0)
+            ok = r["exit"] == 0 and not (set(m.get("rules", {}).get(prop, [])) & set(r["fired"]))
+            if ok:
+                n_ok += 1
+                rep.ok(f"{prop}.selftest", f"repair:{m['id']}", m["file"], "the intended repair of the recorded finding silences the rule")
+            else:
+                bad.append(f"repaired copy {m['id']} ({m['what']}) still fires: exit {r['exit']}, fired {r['fired']}")
         else:
             # a benign twin may only trip known findings (exit 0)
             ok = r["exit"] == 0
@@ -138,6 +147,9 @@ def main():
                 bad += 1
             elif m["expect"] == "fail" and not (r["exit"] == 1 and (not exp or exp & set(r["fired"]))):
                 print(f"MISS {prop} {m['id']}: exit {r['exit']} fired {r['fired']} expected {sorted(exp)} {r['err'][:200]}")
+                bad += 1
+            elif m["expect"] == "repaired" and (r["exit"] != 0 or exp & set(r["fired"])):
+                print(f"STILL-FIRES {prop} {m['id']}: exit {r['exit']} fired {r['fired']}")
                 bad += 1
             elif m["expect"] == "pass" and r["exit"] != 0:
                 print(f"ALARM {prop} {m['id']}: exit {r['exit']} {r['first']} {r['err'][:200]}")
